@@ -599,11 +599,11 @@ theorem clone_by_reference_witness :
     Clos.runM { Clos.Mech.yaegi with cloneFrame := false } 40 ClosEx.redefine = some ⟨[10, 11], .normal⟩ ∧
     Clos.runM { Clos.Mech.yaegi with cloneFrame := false } 40 ClosEx.loopClosures = some ⟨[2, 2, 2], .normal⟩ := by decide
 
-/-- the mechanism before the repairs 231dea3 (F51) and 1c8103f (F52) -/
+/-- the mechanism before the repairs 716c992 (F51) and 26ad67e (F52) -/
 def mechBeforeF51 : Clos.Mech := { Clos.Mech.yaegi with boundAlias := true }
 def mechBeforeF52 : Clos.Mech := { Clos.Mech.yaegi with redeclNop := true }
 
-/-- **witness (F51, repaired by 231dea3)** — with the OLD rangeInt the hidden slot of `for i := range m` held the
+/-- **witness (F51, repaired by 716c992)** — with the OLD rangeInt the hidden slot of `for i := range m` held the
     variable's own cell, so `m = 1` in the body ended the loop after one iteration; Go evaluates the bound once -/
 theorem range_bound_alias_witness :
     Clos.runS 40 ClosEx.rangeVarBound = some ⟨[0, 1, 2], .normal⟩ ∧
@@ -614,7 +614,7 @@ theorem range_bound_copied : Clos.runM Clos.Mech.yaegi 40 ClosEx.rangeVarBound =
   rw [closure_frames_correct _ _ (by decide)]; decide
 example : Clos.runM Clos.Mech.yaegi 40 ClosEx.rangeVarBound = some ⟨[0, 1, 2], .normal⟩ := by decide
 
-/-- **witness (F52, repaired by 1c8103f)** — the OLD cfg.go turned a define of the loop variable's name at the top
+/-- **witness (F52, repaired by 26ad67e)** — the OLD cfg.go turned a define of the loop variable's name at the top
     level of the loop body into a `nop` (meant for the pre-1.22 idiom `i := i`), so `i := 5` was lost, and after
     `i := i` the body worked on the loop variable itself -/
 theorem loopvar_redeclared_witness :
